@@ -3,6 +3,47 @@
 From Coq Require Import Sorted.
 From AG Require Import Base.Prelude Base.Res Base.Bytes Codec.Adc Codec.Pwb Codec.Pwb_proofs Gen.Boards Ident.Tables.
 
+(* ---- the mask loop (padwing.rs:1390-1394) ---- *)
+(* For every u128 and both overflow modes the leading_zeros loop with fuel 128 terminates without panic and pushes
+   exactly the set bits, highest first (the code then reverses: ascending).  [mask_bits num n] is
+   [filter (N.testbit num) [0; ...; n-1]]. *)
+Theorem C05_mask_loop_set_bits : forall m num, num < 2 ^ 128 ->
+  mask_loop m 128 num = Ok (rev (mask_bits num 128)) /\ StronglySorted N.lt (mask_bits num 128).
+Proof. exact mask_bits_ascending_lemma. Qed.
+Print Assumptions C05_mask_loop_set_bits.
+
+(* Ten mask bytes with bit 79 clear give exactly the set bits 0..78 in ascending readout order, bit i mapped to
+   the channel with readout index i + 1 ([mask_chan_list]); the list is strictly ascending in readout index. *)
+Theorem C05_mask_bits_ascending : forall m s, bytes s -> lenN s = 10 -> nthN s 9 < 128 ->
+  mask_chans m s = Ok (mask_chan_list (le_val s)) /\
+  mask_chan_list (le_val s) = map (fun i => readout_chan_d (i + 1)) (filter (N.testbit (le_val s)) (Nrange 79)) /\
+  StronglySorted N.lt (map chan_readout (mask_chan_list (le_val s))).
+Proof. exact mask_chans_lemma. Qed.
+Print Assumptions C05_mask_bits_ascending.
+
+(* ---- readout index <-> channel (padwing.rs:819-839), finite computation over the 79 indices ---- *)
+(* The conversion of the code equals the documented readout order for EVERY index (both overflow modes);
+   indices 1..79 and the 3 reset + 4 FPN + 72 pad channels are in bijection. *)
+Theorem C05_readout_bijection :
+  (forall m i, chan_of_readout m i = match readout_chan i with Some c => Ok c | None => Err PE end) /\
+  (forall i, readout_chan i <> None <-> 1 <= i <= 79) /\
+  (forall i c, readout_chan i = Some c -> chan_readout c = i /\ chan_valid c = true) /\
+  (forall c, chan_valid c = true -> readout_chan (chan_readout c) = Some c /\ 1 <= chan_readout c <= 79) /\
+  (forall c, chan_valid c = true <->
+             match c with Reset n => 1 <= n <= 3 | Fpn n => 1 <= n <= 4 | Pad n => 1 <= n <= 72 end) /\
+  length readout_order = 79%nat /\ NoDup readout_order.
+Proof. exact readout_bijection_lemma. Qed.
+Print Assumptions C05_readout_bijection.
+
+(* ---- no panic, no silent wrap-around ---- *)
+Theorem C05_pwb_total : forall macs m l, bytes l -> pwb_decode macs m l <> Panic.
+Proof. exact pwb_total_lemma. Qed.
+Print Assumptions C05_pwb_total.
+
+Theorem C05_pwb_no_wrap : forall macs l, bytes l -> pwb_decode macs Checked l = pwb_decode macs Wrapping l.
+Proof. exact pwb_no_wrap_lemma. Qed.
+Print Assumptions C05_pwb_no_wrap.
+
 (* non-vacuity: two channels (pad 1 = readout index 4, FPN 1 = readout index 16), 3 samples each (odd: padded) *)
 Definition c05_example : list N :=
   [2;65;0;0; 236;40;255;135;84;2; 1;0; 1;2;3;4;5;6; 0;0; 10;0; 3;0;
